@@ -44,6 +44,10 @@ pub enum Fault {
     ResetFlow { by_app: bool },
     /// accept() fails with EMFILE `n` times on the client's (true) or server's (false) TCP listener
     AcceptErr { on_client: bool, n: u32 },
+    /// the client (true) or the server (false) is at its descriptor limit for a while: the operations in `mask` (1 = accept,
+    /// 2 = connect, 4 = datagram bind, 8 = opening a file such as the certificate) fail with EMFILE while `flows` ordinary flows
+    /// are attempted; then descriptors are available again
+    FdExhaustion { on_client: bool, mask: u8, flows: u32 },
     /// QUIC cells: datagrams to the server's QUIC port - random bytes, or something shaped like a long-header Initial packet
     DgramToServer { bytes: Vec<u8>, n: u32 },
     /// many connections to the server's port at once, each sending these bytes (a partial TLS hello, a partial upgrade,
@@ -66,6 +70,7 @@ pub fn fault_name(f: &Fault) -> String {
         Fault::Flood { bytes, .. } => format!("flood-of-stalled-{}-connections", raw_kind(bytes)),
         Fault::ResetFlow { by_app } => format!("reset-by-{}", if *by_app { "application" } else { "target" }),
         Fault::AcceptErr { on_client, .. } => format!("accept-emfile-{}", if *on_client { "client" } else { "server" }),
+        Fault::FdExhaustion { on_client, .. } => format!("descriptors-exhausted-{}", if *on_client { "client" } else { "server" }),
         Fault::QuicBadHandshake { kind } => format!("quic-handshake-{}", ["foreign-alpn", "no-alpn", "untrusted-certificate", "abandoned"][*kind as usize % 4]),
         Fault::QuicStalledHandshake => "quic-handshake-stalled".to_owned(),
         Fault::DgramToServer { bytes, .. } => format!("{}-datagrams-to-quic-port", if bytes.first().is_some_and(|b| b & 0xc0 == 0xc0) { "initial-like" } else { "garbage" }),
@@ -137,6 +142,7 @@ pub fn gen_fault(g: &mut Gen, transport: Transport) -> Fault {
         }
         6 | 7 => Fault::BadTarget { fault: g.pick(&["refused", "unresolvable", "blackhole"]).to_string() },
         8 | 9 => Fault::ResetFlow { by_app: g.chance(50) },
+        10 => Fault::FdExhaustion { on_client: g.chance(60), mask: g.range(1, 15) as u8, flows: g.range(1, 3) as u32 },
         _ => Fault::AcceptErr { on_client: g.chance(50), n: g.range(1, 3) as u32 },
     }
 }
@@ -241,6 +247,24 @@ async fn inject(ix: usize, f: &Fault, held: &mut Held) {
             tokio::task::yield_now().await;
             held._tasks.push(spawn_scoped(run_app(120 + ix, fl, obs, true)));
             tokio::time::sleep(Duration::from_millis(500)).await;
+        }
+        Fault::FdExhaustion { on_client, mask, flows } => {
+            let node = if *on_client { rt::NODE_CLIENT } else { rt::NODE_SERVER };
+            world::with(|w| w.fd_exhausted_nodes.push((node, *mask)));
+            for k in 0..*flows as usize {
+                let mut g = Gen::new((ix * 7 + k) as u64, 90);
+                let mut fl = gen_flow(&mut g, 140 + ix * 4 + k, LocalHs::Socks5V4, Ending::AppAfterAll, 600);
+                fl.start_ms = 0;
+                let obs = Arc::new(Mutex::new(FlowObs::default()));
+                held._tasks.push(spawn_scoped(run_target(140 + ix * 4 + k, fl.clone(), obs.clone())));
+                tokio::task::yield_now().await;
+                held._tasks.push(spawn_scoped(run_app(140 + ix * 4 + k, fl, obs, true)));
+                tokio::time::sleep(Duration::from_millis(150)).await;
+            }
+            tokio::time::sleep(Duration::from_millis(400)).await;
+            world::with(|w| w.fd_exhausted_nodes.retain(|(n, _)| *n != node));
+            // (the accept loops pause 100 ms after a failed accept)
+            tokio::time::sleep(Duration::from_millis(300)).await;
         }
         Fault::QuicBadHandshake { kind } => {
             quic_bad_handshake(*kind).await;
